@@ -8,7 +8,7 @@ from pytableaux import _verif
 from pytableaux.errors import IllegalStateError, ProofTimeoutError
 from pytableaux.lang import LexicalAbcMeta
 from pytableaux.logics import registry
-from pytableaux.proof import Tableau
+from pytableaux.proof import Tableau, sdwnode
 
 from .. import lexgen, proofsim, proofwl, proofcheck
 from ..kernel import digest_of
@@ -239,7 +239,7 @@ def deadline_other_drives(cfg, limit, base, plan, ref, max_steps=None):
 
 LIFE_OPS = ('step', 'step', 'step', 'build', 'finish', 'stepiter2', 'set_arg', 'set_logic', 'rules_append', 'rules_extend',
             'rules_clear', 'groups_create', 'groups_append', 'groups_clear', 'group_append', 'group_extend', 'group_clear',
-            'build_trunk', 'branch', 'next')
+            'build_trunk', 'branch', 'next', 'branch_node', 'branch_node')
 
 def lifecycle_case(cfg, ops, with_arg, with_logic, auto_trunk=True):
     fresh(cfg)
@@ -248,6 +248,9 @@ def lifecycle_case(cfg, ops, with_arg, with_logic, auto_trunk=True):
     opts.pop('build_timeout', None)
     if not auto_trunk:
         opts['auto_build_trunk'] = False
+    if 'branch_node' in ops and not (opts.get('max_steps') or 0) > 0:
+        # without an argument nothing projects a world limit (S4: a hand-made `[]<>a` never ends): keep the work bounded
+        opts['max_steps'] = 40
     tab = Tableau(cfg.logic if with_logic else None, arg if with_arg else None, **opts)
     from pytableaux.proof.rules import NoopRule
     # setters after start are tried with values that differ from the current ones
@@ -287,6 +290,14 @@ def lifecycle_case(cfg, ops, with_arg, with_logic, auto_trunk=True):
                 else: g.clear()
             elif op == 'build_trunk': tab.build_trunk()
             elif op == 'branch': tab.branch()
+            elif op == 'branch_node':
+                # a hand-made branch with a node on it: the tableau can start without ever building a trunk
+                if tab.logic is None or finished:
+                    continue
+                meta = tab.logic.Meta
+                node = sdwnode(lexgen.build(cfg.prems[k % len(cfg.prems)] if cfg.prems else cfg.conc),
+                    True if meta.many_valued else None, 0 if meta.modal else None)
+                tab.branch().append(node)
             elif op == 'next': tab.next()
         except ProofTimeoutError as e:
             exc = e
